@@ -106,6 +106,24 @@ def prefixable(name, mag, prefixes):
 
 SI = {"n": F("1e-9"), "μ": F("1e-6"), "u": F("1e-6"), "m": F("1e-3"), "c": F("1e-2"), "d": F("1e-1"),
       "k": F("1e3"), "M": F("1e6"), "G": F("1e9"), "T": F("1e12"), "P": F("1e15")}
+# the complete SI prefix table (SI Brochure 9th ed., table 7, with the 2022 additions); a unit the library does not
+# have today but that is spelled with one of these is still readable (e.g. a newly added hectometre "hm")
+SI_ALL = dict(SI)
+SI_ALL.update({"q": F("1e-30"), "r": F("1e-27"), "y": F("1e-24"), "z": F("1e-21"), "a": F("1e-18"), "f": F("1e-15"),
+               "p": F("1e-12"), "da": F(10), "h": F(100), "E": F("1e18"), "Z": F("1e21"), "Y": F("1e24"),
+               "R": F("1e27"), "Q": F("1e30")})
+WORD_PREFIX_ALL = {"quecto": F("1e-30"), "ronto": F("1e-27"), "yocto": F("1e-24"), "zepto": F("1e-21"), "atto": F("1e-18"),
+                   "femto": F("1e-15"), "pico": F("1e-12"), "nano": F("1e-9"), "micro": F("1e-6"), "milli": F("1e-3"),
+                   "centi": F("1e-2"), "deci": F("1e-1"), "deca": F(10), "deka": F(10), "hecto": F(100), "kilo": F("1e3"),
+                   "mega": F("1e6"), "giga": F("1e9"), "tera": F("1e12"), "peta": F("1e15"), "exa": F("1e18"),
+                   "zetta": F("1e21"), "yotta": F("1e24"), "ronna": F("1e27"), "quetta": F("1e30")}
+# unit words that take a word prefix -> the symbol whose magnitude they share
+PREFIXABLE_WORDS = {"meter": "m", "meters": "m", "metre": "m", "metres": "m", "second": "s", "seconds": "s",
+                    "gram": "g", "grams": "g", "gramme": "g", "grammes": "g", "newton": "N", "newtons": "N",
+                    "pascal": "Pa", "pascals": "Pa", "joule": "J", "joules": "J", "watt": "W", "watts": "W",
+                    "ampere": "A", "amperes": "A", "coulomb": "C", "coulombs": "C", "hertz": "Hz",
+                    "mole": "mol", "moles": "mol", "liter": "L", "liters": "L", "litre": "L", "litres": "L",
+                    "calorie": "cal", "calories": "cal", "electronvolt": "eV", "electronvolts": "eV"}
 IEC = {"ki": F(2) ** 10, "Mi": F(2) ** 20, "Gi": F(2) ** 30, "Ti": F(2) ** 40, "Pi": F(2) ** 50}
 WORD_PREFIX = {"nano": F("1e-9"), "micro": F("1e-6"), "milli": F("1e-3"), "centi": F("1e-2"), "deci": F("1e-1"),
                "kilo": F("1e3"), "mega": F("1e6"), "giga": F("1e9"), "tera": F("1e12"), "peta": F("1e15"),
@@ -136,6 +154,7 @@ atom("hr|hrs|hour|hours", Mag(3600, 0, T1))
 # mass
 atom("kg", Mag(1, 0, M1))
 atom("g", Mag(F("1e-3"), 0, M1))
+prefixable("g", Mag(F("1e-3"), 0, M1), "")
 atom("lbm", Mag(lb, 0, M1))
 atom("slug", Mag(lbf / ft, 0, M1))
 atom("slinch", Mag(lbf / inch, 0, M1))
@@ -197,6 +216,7 @@ atom("sr", Mag(1))
 atom("ha", Mag(10 ** 4, 0, dims(L=2)))
 atom("ac", Mag(4840 * yd ** 2, 0, dims(L=2)))
 atom("L", Mag(F("1e-3"), 0, dims(L=3)))
+prefixable("L", Mag(F("1e-3"), 0, dims(L=3)), "")
 atom("mL", Mag(F("1e-6"), 0, dims(L=3)))
 # information
 atom("b|bit|bits", Mag(1))
@@ -226,6 +246,21 @@ def atom_readings(tok):
         if p in SI and rest in PREFIXABLE and p in PREFIXABLE[rest][1]:
             m = PREFIXABLE[rest][0]
             out.append(Mag(m.q * SI[p], m.k, m.d))
+    if out:
+        return out
+    # any SI prefix on any prefixable symbol, and any prefix word on a prefixable unit word (only reached by tokens
+    # that have no reading above, so no existing reading changes)
+    for plen in (2, 1):
+        p, rest = tok[:plen], tok[plen:]
+        if p in SI_ALL and rest in PREFIXABLE:
+            m = PREFIXABLE[rest][0]
+            return [Mag(m.q * SI_ALL[p], m.k, m.d)]
+    low = tok.lower()
+    for wp, f in WORD_PREFIX_ALL.items():
+        if low.startswith(wp) and low[len(wp):] in PREFIXABLE_WORDS:
+            sym = PREFIXABLE_WORDS[low[len(wp):]]
+            m = PREFIXABLE[sym][0] if sym in PREFIXABLE else ATOMS[sym][0]
+            return [Mag(m.q * f, m.k, m.d)]
     return out
 
 
@@ -434,6 +469,11 @@ def self_check():
     val("ha", 10000, "hectare = 100 m x 100 m")
     eq("P", "g/cm/s", "poise = g/(cm s)")
     eq("dyn", "g·cm/s^2", "dyne")
+    val("hm", 100, "hectometre")
+    val("dam", 10, "decametre")
+    val("mg", Fr("1e-6"), "milligram in kg")
+    eq("hectometres", "hm", "hectometre spelled out")
+    eq("dL", "hm·mm^2", "decilitre = 100 m x 1 mm x 1 mm")
     val("kiB", 8 * 1024, "kiB = 8192 bit")
     val("MiB", 8 * 1024 ** 2, "MiB")
     val("kB", 8000, "kB = 8000 bit")
